@@ -218,6 +218,7 @@ package parser
 //@   modifies p.offset, p.current, p.currentLen
 //@   ensures wf(p.Scanner) && p.offset >= old(p.offset)
 //@   ensures errIn(result.1, p.Scanner)
+//@   ensures [C07] @cause: result.1 != nil ==> errIn(dyn(result.1, "directives.Error").Wrapped, p.Scanner)
 //@   ensures result.1 == nil ==> node(result.0.Range, p, old(p.offset)) && okAddons(result.0) && measure(p.Scanner) < old(measure(p.Scanner))
 //@   loop 1 invariant wf(p.Scanner) && p.offset >= old(p.offset) && s.Start == old(p.offset) && s.Scanner == &p.Scanner
 //@   loop 1 invariant measure(p.Scanner) <= old(measure(p.Scanner))
